@@ -328,6 +328,10 @@ func Run(r *sim.R, prop string) {
 		ifaceFaultCase(r, prop)
 		return
 	}
+	if t.Chance(1, 48, "inline-pointer-field") {
+		inlinePtrCase(r, prop)
+		return
+	}
 	if t.Chance(1, 24, "inline-field-with-policy") {
 		inlinePolicyCase(r, prop)
 		return
